@@ -14,7 +14,6 @@ use prelude::*;
 
 verus! {
 
-global size_of usize == 8; // the code generator runs on a 64-bit host: u32 -> usize casts are lossless (stated in the evidence)
 
 // ---- model, written from the statement ("as many colour targets as are needed to address every @location it writes") ----
 // wgpu matches a fragment output at @location(l) with color target l, so location l is addressable iff l < N.
